@@ -244,7 +244,9 @@ def build(spec, *, num_threads=0, data_source=None, stages=None, name='p'):
   cuts = [0] + list(stages) + [len(ops)]
   whole = None
   for s in range(len(cuts) - 1):
-    t = transform.TreeTransform.new(name=f'{name}{s}', num_threads=num_threads)
+    # num_threads: one number for every stage, or one per stage
+    nt = num_threads[s] if isinstance(num_threads, (list, tuple)) else num_threads
+    t = transform.TreeTransform.new(name=f'{name}{s}', num_threads=nt)
     if s == 0 and data_source is not None:
       t = t.data_source(data_source)
     t = add_ops(t, ops[cuts[s]:cuts[s + 1]])
